@@ -286,12 +286,9 @@ func wedgeScenario(w *World, p *Plan, rec *Record) {
 		if len(w.stuck) > 0 {
 			break
 		}
-		if !w.probeSuite(n, strings.SplitN(tag, "=", 2)[0]) {
+		ltag := strings.SplitN(strings.SplitN(tag, "=", 2)[0], ":", 2)[0] // cancel | disk-error | stream-vs-writers
+		if !w.probeSuite(n, ltag) {
 			break
-		}
-		ltag := strings.SplitN(tag, "=", 2)[0]
-		if strings.HasPrefix(ltag, "disk-error:") {
-			ltag = "disk-error"
 		}
 		w.leakedWalkers(ltag)
 		w.observe()
